@@ -1,4 +1,4 @@
-import XalanModel.C13.Xslt
+import XalanModel.C13.XsltProofs
 import Driver.Util
 /-
 xm_c13: the C13 model behind the line protocol.
@@ -86,17 +86,28 @@ def parseKids : Nat → Bool → List String → Nat → List Node → Option (L
         | some (name, own) =>
           let eff' := inheritSpace eff own
           -- attribute tokens `@uri|local=hex` directly after the name
+          -- namespace declaration tokens `%prefix=hex(uri)` first, then attribute tokens
+          let nsToks := rest1.takeWhile (·.startsWith "%")
+          let rest1 := rest1.dropWhile (·.startsWith "%")
+          let nss0 : List (String × String) := nsToks.filterMap fun t =>
+            match (t.drop 1).toString.splitOn "=" with
+            | [pfx, h] => (strOfHex h).map fun u => (pfx, u)
+            | _ => none
+          let nss : List (Nat × String × String) := nss0.zipIdx.map fun (a, k) => (next + 1 + k, a.1, a.2)
+          let nextA := next + nss.length
           let attrToks := rest1.takeWhile (·.startsWith "@")
           let rest1 := rest1.dropWhile (·.startsWith "@")
-          let attrs : List (QName × String) := attrToks.filterMap fun t =>
+          let attrs0 : List (QName × String) := attrToks.filterMap fun t =>
             match (t.drop 1).toString.splitOn "=" with
             | [nm, h] =>
               match splitBar nm, strOfHex h with
               | some (u, l), some v => some (⟨u, l⟩, v)
               | _, _ => none
             | _ => none
-          let tag : Option Tag := name.map fun q => ⟨q, eff', attrs⟩
-          match parseKids fuel eff' rest1 (next + 1) [] with
+          -- attribute nodes take the document-order indices right after their element
+          let attrs : List (Nat × QName × String) := attrs0.zipIdx.map fun (a, k) => (nextA + 1 + k, a.1, a.2)
+          let tag : Option Tag := name.map fun q => ⟨q, eff', attrs, nss⟩
+          match parseKids fuel eff' rest1 (nextA + 1 + attrs.length) [] with
           | some (kids, next', rest2) => parseKids fuel eff rest2 next' (.elem next tag kids :: acc)
           | none => none
       | [] => none
@@ -128,6 +139,8 @@ def parseAxis : String → Option Axis
   | "self" => some .self | "parent" => some .parent | "ancestor" => some .ancestor
   | "ancestor-or-self" => some .ancestorOrSelf
   | "following" => some .following | "preceding" => some .preceding
+  | "attribute" => some .attrAxis
+  | "namespace" => some .nsAxis
   | _ => none
 
 def parseTest (s : String) : Option Test :=
@@ -176,12 +189,9 @@ def parseExpr : Nat → List String → Option (Expr × List String)
     | "union" => bin .union
     | "filter" => bin .filter
     | "normalize-space" => un .normalizeSpace
-    | "attr-count" => un .attrCount
-    | "attr-of" => match rest with
-      | nm :: r =>
-        match splitBar nm, parseExpr fuel r with
-        | some (u, l), some (e, r2) => some (.attrOf e ⟨u, l⟩, r2)
-        | _, _ => none
+    | "let" => bin .letIn
+    | "var" => match rest with
+      | n :: r => n.toNat?.map fun k => (.var k, r)
       | [] => none
     | "num" => match rest with
       | n :: r => n.toInt?.map fun k => (.num k, r)
@@ -202,6 +212,16 @@ def parseExpr : Nat → List String → Option (Expr × List String)
             | none => none
         | _, _, _ => none
       | _ => none
+    | _ => none
+
+/-- a pattern part of a request: one token = a node test (`testPat`); several = the selecting expression of a
+multi-step / predicated pattern in prefix form (`exprPat`) -/
+def parsePat (toks : List String) : Option Pat :=
+  match toks with
+  | [t] => (parseTest t).map testPat
+  | _ =>
+    match parseExpr (toks.length + 1) toks with
+    | some (e, []) => some (exprPat e)
     | _ => none
 
 def splitSemi (toks : List String) : List (List String) :=
@@ -239,12 +259,12 @@ def doEval (sheet doc expr : List String) : String :=
   match parseSheet sheet, parseDoc doc, parseExpr (expr.length + 1) expr with
   | some s, some d, some (e, []) =>
     let sp := stripOf s.post
-    let c : Ctx := ⟨⟨d, []⟩, 1, 1⟩
+    let c : Ctx := ⟨.node ⟨d, []⟩, 1, 1, []⟩
     match e.eval sp c with
     | some v =>
       let out := v.toStr sp
       -- the same expression on the physically stripped document, no stripping asked (strip_simulation)
-      let c' : Ctx := ⟨⟨d.strip sp, []⟩, 1, 1⟩
+      let c' : Ctx := ⟨.node ⟨d.strip sp, []⟩, 1, 1, []⟩
       match e.eval noStrip c' with
       | some v' =>
         if v'.toStr noStrip == out then "S" ++ hexOfStr out
@@ -261,7 +281,7 @@ def doCopy (sheet doc expr : List String) : String :=
   match parseSheet sheet, parseDoc doc, parseExpr (expr.length + 1) expr with
   | some s, some d, some (e, []) =>
     let sp := stripOf s.post
-    match copyOf sp (e.eval sp ⟨⟨d, []⟩, 1, 1⟩), copyOf noStrip (e.eval noStrip ⟨⟨d.strip sp, []⟩, 1, 1⟩) with
+    match copyOf sp (e.eval sp ⟨.node ⟨d, []⟩, 1, 1, []⟩), copyOf noStrip (e.eval noStrip ⟨.node ⟨d.strip sp, []⟩, 1, 1, []⟩) with
     | some ev, some ev' =>
       if ev == ev' then "S" ++ hexOfStr (eventsText ev) else "S" ++ hexOfStr (eventsText ev) ++ " SIM-DIFFERS"
     | none, none => "unsupported"
@@ -270,12 +290,12 @@ def doCopy (sheet doc expr : List String) : String :=
 
 /-- `concat(count(key('k', s)), '|', key('k', s))` for `<xsl:key name="k" match="m" use="u"/>` -/
 def doKey (sheet doc m use lit : List String) : String :=
-  match parseSheet sheet, parseDoc doc, m, parseExpr (use.length + 1) use, lit with
-  | some s, some d, [mt], some (u, []), [h] =>
-    match parseTest mt, strOfHex h with
+  match parseSheet sheet, parseDoc doc, parsePat m, parseExpr (use.length + 1) use, lit with
+  | some s, some d, some mp, some (u, []), [h] =>
+    match some mp, strOfHex h with
     | some t, some str =>
       let sp := stripOf s.post
-      let show' (spx : StripFn) (r : Option (List Loc)) : Option String :=
+      let show' (spx : StripFn) (r : Option (List XNode)) : Option String :=
         r.map fun l => toString l.length ++ "|" ++ (Value.ns l).toStr spx
       match show' sp (keyLookup sp ⟨t, u⟩ ⟨d, []⟩ str), show' noStrip (keyLookup noStrip ⟨t, u⟩ ⟨d.strip sp, []⟩ str) with
       | some a, some b => if a == b then "S" ++ hexOfStr a else "S" ++ hexOfStr a ++ " SIM-DIFFERS " ++ hexOfStr b
@@ -295,10 +315,10 @@ end
 
 /-- `<xsl:for-each select="//text()|//*"><xsl:number level="any" count="c" [from="f"]/>|</xsl:for-each>` -/
 def doNumber (sheet doc c f : List String) : String :=
-  match parseSheet sheet, parseDoc doc, c, f with
-  | some s, some d, [ct], [ft] =>
-    let fromT : Option (Option Test) := if ft = "none" then some none else (parseTest ft).map some
-    match parseTest ct, fromT with
+  match parseSheet sheet, parseDoc doc with
+  | some s, some d =>
+    let fromT : Option (Option Pat) := if f = ["none"] then some none else (parsePat f).map some
+    match parsePat c, fromT with
     | some countT, some fromT =>
       let sp := stripOf s.post
       let root : Loc := ⟨d, []⟩
@@ -312,14 +332,14 @@ def doNumber (sheet doc c f : List String) : String :=
         chk ++ (if k = 0 then "" else toString k) ++ "|")
       "S" ++ hexOfStr out
     | _, _ => "bad"
-  | _, _, _, _ => "bad"
+  | _, _ => "bad"
 
 /-- `<xsl:for-each select="//text()|//*"><xsl:number level="single|multiple" count="c" [from="f"]/>|</xsl:for-each>` -/
 def doNumberSM (sheet doc c f lvl : List String) : String :=
-  match parseSheet sheet, parseDoc doc, c, f, lvl with
-  | some s, some d, [ct], [ft], [lv] =>
-    let fromT : Option (Option Test) := if ft = "none" then some none else (parseTest ft).map some
-    match parseTest ct, fromT with
+  match parseSheet sheet, parseDoc doc, lvl with
+  | some s, some d, [lv] =>
+    let fromT : Option (Option Pat) := if f = ["none"] then some none else (parsePat f).map some
+    match parsePat c, fromT with
     | some countT, some fromT =>
       let sp := stripOf s.post
       let root : Loc := ⟨d, []⟩
@@ -330,9 +350,9 @@ def doNumberSM (sheet doc c f lvl : List String) : String :=
         (if a == b then "" else "SIM-DIFFERS") ++ ".".intercalate (a.map toString) ++ "|")
       "S" ++ hexOfStr out
     | _, _ => "bad"
-  | _, _, _, _, _ => "bad"
+  | _, _, _ => "bad"
 
-def step (s : Unit) : List String → Unit × String
+def step0 (s : Unit) : List String → Unit × String
   | "strip" :: _ :: rest =>
     match splitSemi rest with
     | [sheet, doc] => (s, doStrip sheet doc)
@@ -353,17 +373,18 @@ def step (s : Unit) : List String → Unit × String
     match splitSemi rest with
     | [sheet, doc, c, f] => (s, doNumber sheet doc c f)
     | _ => (s, "bad")
-  | "stripx" :: _ :: rest =>
-    match splitSemi rest with
-    | [sheet, doc] => (s, doStrip sheet doc)
-    | _ => (s, "bad")
   | "numbersm" :: _ :: rest =>
     match splitSemi rest with
     | [sheet, doc, c, f, lvl] => (s, doNumberSM sheet doc c f lvl)
     | _ => (s, "bad")
   | "xform" :: _ => (s, "-")
-  | "xformx" :: _ => (s, "-")
   | _ => (s, "bad")
+
+/-- a trailing `x` on the request kind selects the Xerces-DOM representation in the harness; the model is the same -/
+def step (s : Unit) : List String → Unit × String
+  | k :: rest =>
+    if k.length > 1 && k.endsWith "x" then step0 s ((k.dropEnd 1).toString :: rest) else step0 s (k :: rest)
+  | [] => step0 s []
 
 end Driver.C13
 
